@@ -506,6 +506,14 @@ def r4_single_writer(ctx: Context, sm) -> None:
             if f.name not in ("__init__", "purge", "clean_up_invocation", "_atomic_status_transition"):
                 helper_names.add(f.name)
             ctx.add("R4", f"mem-record-writer::{f.qualname}::{w.attr}", okk, f.loc(w.node), "" if okk else f"{f.qualname} writes the status record store '{w.attr}' outside the atomic transition")
+        # ... and through a local alias or through a sibling method that hands out the live container
+        if f.cls is not None and f.cls.is_subclass_of(mem):
+            from ..flow import aliased_store_mutations, class_live_returns
+
+            for node_, nm_, attr_ in aliased_store_mutations(f.node, MEM_RECORD_ATTRS, class_live_returns(f.cls)):
+                n_w += 1
+                okk = f.name in allowed_mem or f.name == "_atomic_status_transition"
+                ctx.add("R4", f"mem-record-writer::{f.qualname}::{attr_}::through-alias", okk, f.loc(node_), "" if okk else f"{f.qualname} changes the status record store '{attr_}' in place through `{nm_}` (a live reference, not a copy) outside the atomic transition: statuses / index entries change without a validated transition, and every scan that iterates the index (recovery, listings) misses or gains invocations")
         # foreign access: <expr>.invocation_status_record[...] = / .status_index... from other classes
         for n in walk_no_nested(f.node):
             if isinstance(n, (ast.Assign, ast.AugAssign, ast.Delete)):
